@@ -74,7 +74,7 @@ impl Property for C09 {
     fn rule(&self) -> String {
         "(a) every text base+d1(+d2) over the 365 bases and 32 diacritics that asca parses (all ~375k texts, both tiers): parse, render, re-parse, compare structurally; \
          (b) every bundle obtained from base(+≤1 diacritic) by one feature flip / sub-node removal / sub-node creation, built structurally (all, both tiers); \
-         (c) random words (1-4 syllables, lengths 1-3, both stresses, tones, segments from (a)/(b) pools) from the tape generator (quick 500k, thorough 6M). \
+         (d) generated rule lists (1-3 full-grammar rules, no insertion) applied to generated words: the printed output must be a fixed point of the empty rule list (quick 400k, thorough 5M); (c) random words (1-4 syllables, lengths 1-3, both stresses, tones, segments from (a)/(b) pools) from the tape generator (quick 500k, thorough 6M). \
          Oracle: if render(w) has no �, parse(render(w)) == w (bundles per syllable, stress, tone) and run([], [text]) == [text]. \
          Non-trivial: the word contains a bundle that is not an exact base (needs diacritic composition), or has ≥2 syllables with stress or tone. Distinct = hash of the structural word.".into()
     }
@@ -108,6 +108,16 @@ impl Property for C09 {
                 run_case(self, ctx, json!({"kind": "bundle", "seg": v.to_json(), "from": ps.text}));
             }
         }
+        // (d) outputs of generated runs (segmental and suprasegmental rules) must be fixed points of the empty rule list
+        let n = ctx.tier.pick(400_000, 5_000_000);
+        run_tape_batches(self, ctx, "runs", n, 400, &|t| {
+            let wp = if t.chance(1, 3) { WordProfile::RICH } else { WordProfile::PLAIN };
+            let word = gen_word(t, wp).text();
+            let segs = match api::parse_word(&word) { Ok(Ok(pw)) => word_segs(&pw), _ => return None };
+            let nr = 1 + t.weighted(&[5, 3, 1]);
+            let rules: Vec<String> = (0..nr).map(|_| { let mut g = RuleGen::new(RuleProfile { insertion: false, ..RuleProfile::FULL }, segs.clone()); rule_text(&g.rule(t)) }).collect();
+            Some(json!({"kind": "run", "text": word, "rules": rules}))
+        });
         // (c) random words
         let n = ctx.tier.pick(500_000, 6_000_000);
         run_tape_batches(self, ctx, "words", n, 120, &|t| {
@@ -116,6 +126,23 @@ impl Property for C09 {
         });
     }
     fn check(&self, case: &Value) -> Outcome {
+        if case["kind"] == "run" {
+            // corollary: the output of any run is a fixed point of the empty rule list (unless it contains �)
+            let rules = crate::props::c02::strs(&case["rules"]); let word = case["text"].as_str().unwrap_or("");
+            let pw = match api::parse_word(word) { Ok(Ok(w)) => w, _ => return Outcome::skip("text is not a word asca accepts") };
+            let res = match api::apply_rules(&rules, &pw) { Ok(Ok(r)) => r, Ok(Err(_)) => return Outcome::skip("the rules return Err"), Err(_) => return Outcome::skip("call did not return (C02's business)") };
+            let out = match api::run(&api::groups(&rules), &[word.to_string()], &[], &[]) { Ok(Ok(v)) => v[0].clone(), _ => return Outcome::skip("the rules return Err") };
+            if out.contains('�') { return Outcome::skip("rendering contains the replacement character") }
+            let again = match api::run(&[], &[out.clone()], &[], &[]) { Ok(Ok(v)) => v[0].clone(), Ok(Err(e)) => format!("Err({})", api::err_variant(&e)), Err(_) => return Outcome::skip("call did not return (C02's business)") };
+            if again != out {
+                // attribute to a listed segment-level finding when the structural result has a segment that does not round-trip on its own
+                let m = MWord::from_asca(&res);
+                if let Outcome::Fail { signature, .. } = roundtrip(&m, case) { if signature.starts_with("bundle:") || signature.starts_with("word|resegmentation") { return Outcome::fail(if signature.starts_with("bundle:") && !crate::core::is_known("C09", &signature) { "run output with a segment (beyond base+2 diacritics) that does not read back".to_string() } else { signature }, json!({"rules": rules, "word": word, "output": out, "reread": again})) } }
+                return Outcome::fail("run output is not a fixed point of the empty rule list", json!({"rules": rules, "word": word, "output": out, "reread": again, "structural_result": m.show()}))
+            }
+            let m = MWord::from_asca(&res);
+            return if m != MWord::from_asca(&pw) { Outcome::pass_nt(hash64(&(rules, word))) } else { Outcome::pass() }
+        }
         match case["kind"].as_str() {
             Some("bundle") => { let s = MSeg::from_json(&case["seg"]); roundtrip(&single(s), case) }
             _ => {
